@@ -144,16 +144,22 @@ def step (_ : Unit) (ws : List String) : Unit × String :=
       let ret := if r ≠ 0 then r else if hx == "-" then 0 else 1
       ((), s!"{ret} {if r = 0 then all.sum else 0} {all.sum} {fmtList all} leak=0")
     | _ => ((), "bad-chain")
-  | ["al_mtenc", t, bs, ch, _] =>
-    match t.toNat?, bs.toNat?, parseChain ch with
-    | some t, some bs, some fs =>
-      let est := streamEncoderMtMemusage B t bs fs
-      ((), s!"{if est.isSome then 1 else 8} {u64 est}")
-    | _, _, _ => ((), "bad-chain")
   | "al_index" :: pre :: ns =>
     match pre.toNat?, ns.mapM String.toNat? with
     | some p, some ns => ((), alIndex p ns)
     | _, _ => bad
+  | [op, t, bs, ch, _] =>
+    if op == "al_mtenc" ∨ op == "al_mtsat" then
+      match t.toNat?, bs.toNat?, parseChain ch with
+      | some t, some bs, some fs =>
+        let est := streamEncoderMtMemusage B t bs fs
+        ((), s!"{if est.isSome then 1 else 8} {u64 est}")
+      | _, _, _ => ((), "bad-chain")
+    else if op == "idx" then
+      match t.toNat?, parseSets bs, bytesOfHex (ws.getD 4 "") with
+      | some lim, some ss, some inp => ((), runIndex B lim ss inp)
+      | _, _, _ => bad
+    else bad
   | ["dec", kind, flags, limit, sets, _, hx] =>
     match flags.toNat?, limit.toNat?, parseSets sets, bytesOfHex hx with
     | some fl, some lim, some ss, some inp =>
@@ -167,10 +173,6 @@ def step (_ : Unit) (ws : List String) : Unit × String :=
     match flags.toNat?, lt.toNat?, ls.toNat?, parseSets sets, bytesOfHex hx with
     | some fl, some lt, some ls, some ss, some inp => ((), runXzMt B fl lt ls ss inp)
     | _, _, _, _, _ => bad
-  | ["idx", limit, sets, _, hx] =>
-    match limit.toNat?, parseSets sets, bytesOfHex hx with
-    | some lim, some ss, some inp => ((), runIndex B lim ss inp)
-    | _, _, _ => bad
   | ["idxbuf", limit, hx] =>
     match limit.toNat?, bytesOfHex hx with
     | some lim, some inp => ((), runIndexBuf B lim inp)
